@@ -113,7 +113,10 @@ def layout(cells, lay):
 
 def model_chunk(cells, lay):
     inds, vals, offs, col, rows = layout(cells, lay)
-    return {"inds": inds[col], "vals": hx(vals), "off": offs[col], "cap": offs[col + 1] - offs[col], "rows": rows}
+    # col / ncols: the column subscript the importer is called with and the first dimension of column_inds
+    # (= len(column_offsets) - 1): the model checks the subscript of column_offsets[col] / column_inds[col, .] against them
+    return {"inds": inds[col], "vals": hx(vals), "off": offs[col], "cap": offs[col + 1] - offs[col], "rows": rows,
+            "col": col, "ncols": len(inds)}
 
 
 def lay_of(n):
